@@ -44,7 +44,7 @@ use std::collections::{BTreeMap, BTreeSet};
 use std::io;
 use std::net::{IpAddr, Ipv4Addr, Ipv6Addr};
 use std::str::FromStr;
-use bcder::encode::Values;
+use bcder::encode::{PrimitiveContent, Values};
 use bcder::{Mode, Oid};
 use bytes::Bytes;
 use rayon::prelude::*;
@@ -87,6 +87,15 @@ impl Obs {
         let v = match guard(f) { Ok(v) => v, Err(p) => format!("PANIC {p}") };
         self.0.push((name.to_string(), v));
     }
+    /// Two ways of asking the same thing (by value / by reference, wall-clock
+    /// variant / `_at(now)`, `take_opt_from` / `take_from`, ...) must answer
+    /// alike; a disagreement is recorded as a value that `diff` always flags.
+    fn pair(&mut self, name: &str, a: impl FnOnce() -> String, b: impl FnOnce() -> String) {
+        let va = match guard(a) { Ok(v) => v, Err(p) => format!("PANIC {p}") };
+        let vb = match guard(b) { Ok(v) => v, Err(p) => format!("PANIC {p}") };
+        let v = if va == vb { va } else { format!("SIBLING-MISMATCH {} <> {}", rpki_verif::trunc(&va, 120), rpki_verif::trunc(&vb, 120)) };
+        self.0.push((name.to_string(), v));
+    }
     fn sub(&mut self, prefix: &str, other: Obs) {
         for (n, v) in other.0 { self.0.push((format!("{prefix}.{n}"), v)) }
     }
@@ -105,7 +114,7 @@ fn diff_l(built: &Obs, decoded: &Obs, la: &str, lb: &str) -> Option<String> {
     }
     for ((na, va), (nb, vb)) in built.0.iter().zip(decoded.0.iter()) {
         let bad = if na != nb { Some(format!("entry order differs: {na} / {nb}")) }
-            else if va.starts_with("PANIC") || vb.starts_with("PANIC") {
+            else if va.starts_with("PANIC") || vb.starts_with("PANIC") || va.contains("SIBLING-MISMATCH") || vb.contains("SIBLING-MISMATCH") {
                 Some(format!("{na}: {la}={} {lb}={}", rpki_verif::trunc(va, 160), rpki_verif::trunc(vb, 160)))
             }
             else if va != vb { Some(format!("{na}: {la}={} {lb}={}", rpki_verif::trunc(va, 160), rpki_verif::trunc(vb, 160))) }
@@ -127,8 +136,41 @@ fn r_validity(v: Validity) -> String { format!("{}..{}", r_time(v.not_before()),
 fn r_name(n: &Name) -> String { format!("{} rpki={:?} router={:?}", hex(&cap(n.encode_ref())),
     n.inspect_rpki(true).map_err(|e| e.to_string()), n.inspect_router(true).map_err(|e| e.to_string())) }
 fn r_key(k: &PublicKey) -> String {
-    format!("{} ski={} alg={:?} rpki={} router={} bits={}", hx(&k.to_info_bytes()), k.key_identifier(), k.algorithm(),
-        k.allow_rpki_cert(), k.allow_router_cert(), k.bits().len())
+    let info = k.to_info_bytes();
+    // siblings: by-value encoder, bits as Bytes, SHA-1 helper, and a key
+    // rebuilt from its own bits / components must be the same key
+    let mut sib: Vec<String> = vec![];
+    if cap(k.clone().encode()) != info.as_ref() || cap(k.encode_ref()) != info.as_ref() { sib.push("encode/encode_ref/to_info_bytes differ".into()) }
+    if k.bits_bytes().as_ref() != k.bits() { sib.push("bits_bytes != bits".into()) }
+    if rpki::crypto::digest::sha1_digest(k.bits()).as_ref() != k.key_identifier().as_slice() { sib.push("sha1_digest(bits) != key_identifier".into()) }
+    { let mut c = rpki::crypto::digest::start_sha1(); c.update(k.bits()); if c.finish().as_ref() != k.key_identifier().as_slice() { sib.push("start_sha1 != key_identifier".into()) } }
+    if PublicKey::decode(info.clone()).map(|x| x == *k).unwrap_or(false) == false { sib.push("decode(to_info_bytes) != self".into()) }
+    if k.algorithm() == PublicKeyFormat::Rsa {
+        match PublicKey::rsa_from_bits_bytes(k.bits_bytes()) { Ok(x) => if x != *k || x.to_info_bytes() != info { sib.push("rsa_from_bits_bytes(bits) != self".into()) }, Err(e) => sib.push(format!("rsa_from_bits_bytes: {e}")) }
+        if let Some(n) = der::parse_one(k.bits(), false) { if n.children.len() == 2 {
+            match PublicKey::rsa_from_components(n.children[0].content(k.bits()), n.children[1].content(k.bits())) {
+                Ok(x) => if x != *k || x.to_info_bytes() != info { sib.push("rsa_from_components(n, e) != self".into()) }, Err(e) => sib.push(format!("rsa_from_components: {e}")) }
+        }}
+    }
+    format!("{} ski={} alg={:?} rpki={} router={} bits={}{}", hx(&info), k.key_identifier(), k.algorithm(),
+        k.allow_rpki_cert(), k.allow_router_cert(), k.bits().len(), if sib.is_empty() { String::new() } else { format!(" SIBLING-MISMATCH {}", sib.join("; ")) })
+}
+fn r_ski(ki: &rpki::crypto::keys::KeyIdentifier) -> String {
+    let enc = cap(ki.encode_ref());
+    let a = Mode::Der.decode(enc.as_slice(), rpki::crypto::keys::KeyIdentifier::take_from).map(|x| x.to_string()).map_err(|e| e.to_string());
+    let b = Mode::Der.decode(enc.as_slice(), |c| rpki::crypto::keys::KeyIdentifier::take_opt_from(c)).map(|x| x.map(|x| x.to_string()).unwrap_or_default()).map_err(|e| e.to_string());
+    let c = Mode::Der.decode(enc.as_slice(), |c| rpki::crypto::keys::KeyIdentifier::skip_opt_in(c)).map(|x| x.is_some()).map_err(|e| e.to_string());
+    if a == b && a == Ok(ki.to_string()) && c == Ok(true) { ki.to_string() } else { format!("SIBLING-MISMATCH {ki} take_from={a:?} take_opt_from={b:?} skip_opt_in={c:?}") }
+}
+fn r_digest_alg(a: DigestAlgorithm) -> String {
+    let one = cap(a.encode()); let set = cap(a.encode_set());
+    let t = Mode::Der.decode(one.as_slice(), DigestAlgorithm::take_from).is_ok();
+    let o = Mode::Der.decode(one.as_slice(), |c| DigestAlgorithm::take_opt_from(c)).map(|x| x.is_some()).unwrap_or(false);
+    let ts = Mode::Der.decode(set.as_slice(), DigestAlgorithm::take_set_from).is_ok();
+    let ss = Mode::Der.decode(set.as_slice(), DigestAlgorithm::skip_set).is_ok();
+    let len_ok = a.digest(b"x").as_ref().len() == a.digest_len();
+    format!("{:?} sha256={} len={}{}", a, a.is_sha256(), a.digest_len(),
+        if t && o && ts && ss && len_ok { String::new() } else { format!(" SIBLING-MISMATCH take_from={t} take_opt_from={o} take_set_from={ts} skip_set={ss} digest_len_matches={len_ok}") })
 }
 fn r_rsync(u: Option<&uri::Rsync>) -> String {
     match u {
@@ -397,8 +439,11 @@ fn obs_tbs(t: &TbsCert) -> Obs {
     o.put("subject", || r_name(t.subject()));
     o.put("subject_public_key_info", || r_key(t.subject_public_key_info()));
     o.put("basic_ca", || format!("{:?}", t.basic_ca()));
-    o.put("subject_key_identifier", || t.subject_key_identifier().to_string());
-    o.put("authority_key_identifier", || format!("{:?}", t.authority_key_identifier()));
+    o.put("subject_key_identifier", || r_ski(&t.subject_key_identifier()));
+    o.put("authority_key_identifier", || format!("{:?}", t.authority_key_identifier().map(|k| r_ski(&k))));
+    o.pair("validity.verify", || r_res(t.validity().verify()), || r_res(t.validity().verify_at(Time::now())));
+    #[allow(deprecated)]
+    o.pair("validity.to_binary_time", || t.validity().not_before().to_binary_time().to_string(), || t.validity().not_before().timestamp().to_string());
     o.put("key_usage", || format!("{:?}", t.key_usage()));
     o.put("extended_key_usage", || format!("{:?}", t.extended_key_usage().map(|e| r_res(e.inspect_router()))));
     o.put("crl_uri", || r_rsync(t.crl_uri()));
@@ -431,6 +476,16 @@ fn obs_cert(c: &Cert) -> Obs {
         o.put(&format!("verify_validity@{i}"), || r_res(c.verify_validity(*t)));
     }
     o.put("verify_ta_ref_at(nb)", || r_res(c.verify_ta_ref_at(true, c.validity().not_before())));
+    o.pair("verify_ta_ref", || r_res(c.verify_ta_ref(true)), || r_res(c.verify_ta_ref_at(true, Time::now())));
+    // sibling decoders of the same octets
+    let bytes = c.to_captured();
+    o.pair("take_opt_from", || Mode::Der.decode(bytes.as_slice(), |x| Cert::take_opt_from(x)).map(|x| x.map(|x| hx(x.to_captured().as_slice())).unwrap_or("None".into())).unwrap_or_else(|e| e.to_string()),
+        || Mode::Der.decode(bytes.as_slice(), Cert::take_from).map(|x| hx(x.to_captured().as_slice())).unwrap_or_else(|e| e.to_string()));
+    o.pair("SignedData::decode", || rpki::repository::x509::SignedData::<RpkiSignatureAlgorithm>::decode(bytes.as_slice()).map(|x| hx(&cap(x.encode_ref()))).unwrap_or_else(|e| e.to_string()),
+        || hx(bytes.as_slice()));
+    o.pair("SignedData::take_from", || Mode::Der.decode(bytes.as_slice(), rpki::repository::x509::SignedData::<RpkiSignatureAlgorithm>::take_from)
+        .map(|x| format!("{} sig={}", hx(x.data().as_slice()), hx(x.signature().value()))).unwrap_or_else(|e| e.to_string()),
+        || rpki::repository::x509::SignedData::<RpkiSignatureAlgorithm>::decode(bytes.as_slice()).map(|x| format!("{} sig={}", hx(x.data().as_slice()), hx(x.signature().value()))).unwrap_or_else(|e| e.to_string()));
     o
 }
 
@@ -439,7 +494,7 @@ fn obs_rescert(rc: &ResourceCert) -> Obs {
     o.put("v4_resources", || r_ipblocks(rc.v4_resources(), true));
     o.put("v6_resources", || r_ipblocks(rc.v6_resources(), false));
     o.put("as_resources", || r_asblocks_n(rc.as_resources(), false));
-    o.put("tal", || rc.tal().name().to_string());
+    o.pair("tal", || rc.tal().name().to_string(), || rc.clone().into_tal().name().to_string());
     o.put("as_cert", || hx(rc.as_cert().to_captured().as_slice()));
     o
 }
@@ -451,7 +506,7 @@ fn obs_crl(c: &Crl, probes: &[Serial]) -> Obs {
     o.put("this_update", || r_time(c.this_update()));
     o.put("next_update", || r_time(c.next_update()));
     o.put("is_stale", || c.is_stale().to_string());
-    o.put("authority_key_identifier", || c.authority_key_identifier().to_string());
+    o.put("authority_key_identifier", || r_ski(c.authority_key_identifier()));
     o.put("crl_number", || c.crl_number().to_string());
     o.put("revoked_certs.iter", || c.revoked_certs().iter()
         .map(|e| format!("{}@{}", e.user_certificate, r_time(e.revocation_date))).collect::<Vec<_>>().join(","));
@@ -466,6 +521,26 @@ fn obs_crl(c: &Crl, probes: &[Serial]) -> Obs {
     o.put("signed_data.data", || hx(c.signed_data().data().as_slice()));
     o.put("signed_data.signature", || hx(c.signed_data().signature().value()));
     o.put("to_captured", || hx(c.to_captured().as_slice()));
+    // sibling decoders and the (deprecated) store
+    let bytes = c.to_captured();
+    o.pair("take_opt_from", || Mode::Der.decode(bytes.as_slice(), |x| Crl::take_opt_from(x)).map(|x| x.map(|x| hx(x.to_captured().as_slice())).unwrap_or("None".into())).unwrap_or_else(|e| e.to_string()),
+        || Mode::Der.decode(bytes.as_slice(), Crl::take_from).map(|x| hx(x.to_captured().as_slice())).unwrap_or_else(|e| e.to_string()));
+    o.pair("SignedData::decode", || rpki::repository::x509::SignedData::<RpkiSignatureAlgorithm>::decode(bytes.as_slice()).map(|x| hx(x.data().as_slice())).unwrap_or_else(|e| e.to_string()),
+        || hx(c.signed_data().data().as_slice()));
+    o.pair("CrlEntry::take_from", || c.revoked_certs().iter().map(|e| { let d = cap(e.encode());
+            Mode::Der.decode(d.as_slice(), CrlEntry::take_from).map(|x| format!("{}@{}", x.user_certificate, r_time(x.revocation_date))).unwrap_or_else(|e| e.to_string()) }).collect::<Vec<_>>().join(","),
+        || c.revoked_certs().iter().map(|e| format!("{}@{}", e.user_certificate, r_time(e.revocation_date))).collect::<Vec<_>>().join(","));
+    #[allow(deprecated)]
+    for caching in [false, true] {
+        o.pair(&format!("CrlStore(caching={caching})"), || {
+            let mut st = rpki::repository::crl::CrlStore::new();
+            if caching { st.enable_serial_caching() }
+            let (u1, u2) = (uri::Rsync::from_str("rsync://h/m/a.crl").unwrap(), uri::Rsync::from_str("rsync://h/m/b.crl").unwrap());
+            st.push(u1.clone(), c.clone());
+            format!("{:?} {} missing={}", st.get(&u1).map(|x| hx(x.to_captured().as_slice())),
+                st.get(&u1).map(|x| probes.iter().map(|s| x.contains(*s).to_string()).collect::<Vec<_>>().join(",")).unwrap_or_default(), st.get(&u2).is_none())
+        }, || format!("{:?} {} missing=true", Some(hx(c.to_captured().as_slice())), probes.iter().map(|s| c.contains(*s).to_string()).collect::<Vec<_>>().join(",")));
+    }
     o
 }
 
@@ -474,7 +549,7 @@ fn obs_mft_content(m: &ManifestContent, base: &uri::Rsync) -> Obs {
     o.put("manifest_number", || m.manifest_number().to_string());
     o.put("this_update", || r_time(m.this_update()));
     o.put("next_update", || r_time(m.next_update()));
-    o.put("file_hash_alg", || format!("{:?}", m.file_hash_alg()));
+    o.put("file_hash_alg", || r_digest_alg(m.file_hash_alg()));
     o.put("len", || m.len().to_string());
     o.put("is_empty", || m.is_empty().to_string());
     o.put("is_stale", || m.is_stale().to_string());
@@ -566,6 +641,28 @@ fn obs_csr(c: &RpkiCaCsr) -> Obs {
     o
 }
 
+/// `attributes()` of the RPKI CA request and the BGPsec attribute reader run
+/// over the same request (the two readers share the extension grammar).
+fn csr_attribute_siblings(c: &RpkiCaCsr) -> Option<String> {
+    let mut o = Obs::new();
+    let bytes = c.to_captured();
+    o.put("attributes", || format!("{:?}", c.attributes()).len().to_string());
+    let bg = Csr::<RpkiSignatureAlgorithm, rpki::ca::csr::BgpsecCsrAttributes>::decode(bytes.as_slice());
+    match bg {
+        Ok(b) => {
+            o.pair("bgpsec.subject", || r_name(b.subject()), || r_name(c.subject()));
+            o.pair("bgpsec.public_key", || r_key(b.public_key()), || r_key(c.public_key()));
+            o.pair("bgpsec.extended_key_usage", || format!("{:?}", b.attributes().extended_key_usage().map(|e| r_res(e.inspect_router()))),
+                || format!("{:?}", c.extended_key_usage().map(|e| r_res(e.inspect_router()))));
+            o.pair("bgpsec.verify_signature", || r_res(b.verify_signature()), || r_res(c.verify_signature()));
+            o.pair("bgpsec.to_captured", || hx(b.to_captured().as_slice()), || hx(bytes.as_slice()));
+        }
+        Err(e) => o.put("bgpsec.decode", || format!("SIBLING-MISMATCH the BGPsec attribute reader rejects the request: {e}")),
+    }
+    let bad: Vec<String> = o.0.iter().filter(|(_, v)| v.contains("SIBLING-MISMATCH") || v.starts_with("PANIC")).map(|(n, v)| format!("{n}: {v}")).collect();
+    if bad.is_empty() { None } else { Some(bad.join(" | ")) }
+}
+
 fn obs_idcert(c: &IdCert) -> Obs {
     let mut o = Obs::new();
     o.put("public_key", || r_key(c.public_key()));
@@ -581,6 +678,7 @@ fn obs_idcert(c: &IdCert) -> Obs {
         o.put(&format!("verify_validity@{i}"), || r_res(c.verify_validity(*t)));
         o.put(&format!("validate_ta_at@{i}"), || r_res(c.validate_ta_at(*t)));
     }
+    o.pair("validate_ta", || r_res(c.validate_ta()), || r_res(c.validate_ta_at(Time::now())));
     o.put("to_bytes", || hx(&c.to_bytes()));
     o.put("to_captured", || hx(c.to_captured().as_slice()));
     o
@@ -750,7 +848,49 @@ fn cert_case(d: &Dom, s: &CertSpec) -> CaseResult {
         }
         if !r.fails.is_empty() { break }
     }
+    // wall-clock variants must give the verdict (and resources) of their `_at(now)` siblings
+    for (who, c) in [("built", &built), ("decoded", &decoded)] {
+        if let Some(x) = wallclock_cert(d, s.kind, c) { r.fail("wallclock", format!("{who}: {x}")); break }
+    }
+    // `set_*_resources_inherit()` is `set_*_resources(inherit())`
+    if s.v4 == ResCh::Inherit || s.v6 == ResCh::Inherit || s.asn == ResCh::Inherit {
+        match guard(|| { let mut t = s.build(d);
+            if s.v4 == ResCh::Inherit { t.set_v4_resources(IpResources::missing()); t.set_v4_resources_inherit() }
+            if s.v6 == ResCh::Inherit { t.set_v6_resources(IpResources::missing()); t.set_v6_resources_inherit() }
+            if s.asn == ResCh::Inherit { t.set_as_resources(AsResources::missing()); t.set_as_resources_inherit() }
+            cap(t.encode_ref()) }) {
+            Ok(b) => if b != cap({ let t: &TbsCert = &built; t.encode_ref() }) { r.fail("form_independent", "set_*_resources_inherit() gives another TBSCertificate than set_*_resources(inherit())") },
+            Err(p) => r.fail("form_independent", p),
+        }
+    }
     r
+}
+
+/// `validate_x(..)` against `validate_x_at(.., Time::now())`, `verify_x` likewise.
+fn wallclock_cert(d: &Dom, kind: CKind, c: &Cert) -> Option<String> {
+    let rc = |x: Result<ResourceCert, String>| match x { Ok(rc) => { let o = obs_rescert(&rc); o.0.iter().map(|(n, v)| format!("{n}={v}")).collect::<Vec<_>>().join(";") }, Err(e) => format!("Err({e})") };
+    let mut o = Obs::new();
+    match kind {
+        CKind::Ta => {
+            o.pair("validate_ta", || rc(c.clone().validate_ta(pki::tal(), true).map_err(|e| e.to_string())), || rc(c.clone().validate_ta_at(pki::tal(), true, Time::now()).map_err(|e| e.to_string())));
+            o.pair("verify_ta", || rc(c.clone().verify_ta(pki::tal(), true).map_err(|e| e.to_string())), || rc(c.clone().verify_ta_at(pki::tal(), true, Time::now()).map_err(|e| e.to_string())));
+        }
+        CKind::Ca => {
+            o.pair("validate_ca", || rc(c.clone().validate_ca(&d.ta, true).map_err(|e| e.to_string())), || rc(c.clone().validate_ca_at(&d.ta, true, Time::now()).map_err(|e| e.to_string())));
+            o.pair("verify_ca", || rc(c.clone().verify_ca(&d.ta, true).map_err(|e| e.to_string())), || rc(c.clone().verify_ca_at(&d.ta, true, Time::now()).map_err(|e| e.to_string())));
+        }
+        CKind::Ee => {
+            o.pair("validate_ee", || rc(c.clone().validate_ee(&d.ta, true).map_err(|e| e.to_string())), || rc(c.clone().validate_ee_at(&d.ta, true, Time::now()).map_err(|e| e.to_string())));
+            o.pair("validate_detached_ee", || rc(c.clone().validate_detached_ee(&d.ta, true).map_err(|e| e.to_string())), || rc(c.clone().validate_detached_ee_at(&d.ta, true, Time::now()).map_err(|e| e.to_string())));
+            o.pair("verify_ee", || rc(c.clone().verify_ee(&d.ta, true).map_err(|e| e.to_string())), || rc(c.clone().verify_ee_at(&d.ta, true, Time::now()).map_err(|e| e.to_string())));
+        }
+        CKind::Router => {
+            o.pair("validate_router", || r_res(c.validate_router(&d.ta, true)), || r_res(c.validate_router_at(&d.ta, true, Time::now())));
+            o.pair("verify_router", || r_res(c.verify_router(&d.ta, true)), || r_res(c.verify_router_at(&d.ta, true, Time::now())));
+        }
+    }
+    let bad: Vec<String> = o.0.iter().filter(|(_, v)| v.contains("SIBLING-MISMATCH") || v.starts_with("PANIC")).map(|(n, v)| format!("{n}: {v}")).collect();
+    if bad.is_empty() { None } else { Some(bad.join(" | ")) }
 }
 
 /// The representative resource choices used in the product layer.
@@ -954,6 +1094,16 @@ fn space_sigobj(ctx: &Ctx, d: &Dom) {
                 b.set_v4_resources(pki::ip_res(32, &c.v4.claim(&v4_atoms())));
                 b.set_v6_resources(pki::ip_res(128, &c.v6.claim(&v6_atoms())));
                 b.set_as_resources(pki::as_res(&c.asn.claim(&as_atoms())));
+                // closure-driven siblings of the three setters
+                let mut b2 = c.so.builder(d);
+                b2.set_v4_resources(b.v4_resources().clone()); b2.set_v6_resources(b.v6_resources().clone()); b2.set_as_resources(b.as_resources().clone());
+                if let ResCh::Blocks(l) = &c.v4 { b2.build_v4_resource_blocks(|x| for &i in l { x.push(pki::ip_blocks(32, &[v4_atoms()[i]]).iter().next().unwrap()) }) }
+                if let ResCh::Blocks(l) = &c.v6 { b2.build_v6_resource_blocks(|x| for &i in l { x.push(pki::ip_blocks(128, &[v6_atoms()[i]]).iter().next().unwrap()) }) }
+                if let ResCh::Blocks(l) = &c.asn { b2.build_as_resource_blocks(|x| for &i in l { x.push(pki::as_blocks(&[as_atoms()[i]]).iter().next().unwrap()) }) }
+                if b2.v4_resources() != b.v4_resources() || b2.v6_resources() != b.v6_resources() || b2.as_resources() != b.as_resources() || r_digest_alg(b.digest_algorithm()).contains("SIBLING") {
+                    panic!("build_*_resource_blocks gives other resources than set_*_resources: {} {} {} / {} {} {}", r_ipres(b2.v4_resources(), true), r_ipres(b2.v6_resources(), false),
+                        r_asres(b2.as_resources()), r_ipres(b.v4_resources(), true), r_ipres(b.v6_resources(), false), r_asres(b.as_resources()));
+                }
                 b.finalize(ct(), Bytes::from(contents[c.content].clone()), &signer, &Kid(0))
             }) {
                 Ok(Ok(x)) => x,
@@ -1028,6 +1178,12 @@ fn space_manifest(ctx: &Ctx, d: &Dom) {
                     Ok(e) => if e != signed.content().to_bytes().as_ref() { r.fail("content_reencode", format!("encode_ref()={} eContent={}", hex(&e), hex(&signed.content().to_bytes()))) },
                     Err(p) => r.fail("content_reencode", p),
                 }
+            }
+            for x in [&built, &decoded] {
+                let f = |v: Result<(ResourceCert, ManifestContent), rpki::repository::error::ValidationError>| match v {
+                    Ok((rc, m)) => format!("Ok {} {}", hx(rc.as_cert().to_captured().as_slice()), hx(&cap(m.encode_ref()))), Err(e) => format!("Err({e})") };
+                let (a, b) = (guard(|| f(x.clone().validate(&d.ta, true))), guard(|| f(x.clone().validate_at(&d.ta, true, Time::now()))));
+                if a != b || a.is_err() { r.fail("wallclock", format!("validate {a:?} but validate_at(now) {b:?}")) }
             }
             for now in [d.instants[c.so.win.0], d.instants[c.so.win.1]] {
                 match guard(|| (decoded.clone().validate_at(&d.ta, true, now).map(|x| x.1), built.clone().validate_at(&d.ta, true, now).map(|x| x.1))) {
@@ -1358,6 +1514,7 @@ fn space_csr(ctx: &Ctx, d: &Dom) {
             want.put("verify_signature", || "Ok".into());
             want.put("to_captured", || hx(&bytes));
             if let Some(x) = diff(&want, &obs_csr(&decoded)) { r.fail("accessors", format!("inputs vs decoded: {x}")) }
+            if let Some(x) = csr_attribute_siblings(&decoded) { r.fail("accessors", x) }
             r
         });
     sp.done(true, &format!("{} input tuples", cases.len()));
@@ -1391,6 +1548,11 @@ fn space_idcert(ctx: &Ctx, d: &Dom) {
             if built != decoded { r.fail("accessors", "IdCert == says the built value and its twin differ") }
             { let a: &rpki::ca::idcert::TbsIdCert = &built; let b: &rpki::ca::idcert::TbsIdCert = &decoded;
               if a != b { r.fail("accessors", format!("TbsIdCert == says the built value and its twin differ: {a:?} / {b:?}")) } }
+            if !c.ta { for x in [&built, &decoded] {
+                let key = d.signer.public(c.key);
+                let (a, b) = (guard(|| r_res(x.validate_ee(&key))), guard(|| r_res(x.validate_ee_at(&key, Time::now()))));
+                if a != b || a.is_err() { r.fail("wallclock", format!("validate_ee {a:?} but validate_ee_at(now) {b:?}")) }
+            }}
             for now in [d.instants[c.win.0], d.instants[c.win.1]] {
                 let res = guard(|| if c.ta { decoded.validate_ta_at(now) } else { decoded.validate_ee_at(&d.signer.public(c.key), now) });
                 match res { Ok(Ok(())) => {}, Ok(Err(e)) => { r.fail("validate", format!("at {}: {e}", r_time(now))); break }, Err(p) => { r.fail("validate", p); break } }
@@ -1423,6 +1585,11 @@ fn space_sigmsg(ctx: &Ctx, d: &Dom) {
             let Some((bytes, decoded)) = twin(&mut r, &built, |m| m.to_captured().as_slice().to_vec(),
                 |b| SignedMessage::decode(b, true).map_err(|e| e.to_string()), obs_sigmsg) else { r.label = "no-twin".into(); return r };
             r.label = time_tags(&bytes);
+            for x in [&built, &decoded] {
+                let key = d.signer.public(c.key);
+                let (a, b) = (guard(|| r_res(x.validate(&key))), guard(|| r_res(x.validate_at(&key, Time::now()))));
+                if a != b || a.is_err() { r.fail("wallclock", format!("validate {a:?} but validate_at(now) {b:?}")) }
+            }
             for now in [d.instants[c.win.0], d.instants[c.win.1]] {
                 match guard(|| (decoded.validate_at(&d.signer.public(c.key), now), built.validate_at(&d.signer.public(c.key), now))) {
                     Ok((Ok(()), Ok(()))) => {}
@@ -1969,6 +2136,155 @@ fn space_setters(ctx: &Ctx, d: &Dom) {
     sp.done(true, &format!("{} setter sequences", cases.len()));
 }
 
+
+//============ Inputs made by the library's own constructors ==================
+//
+// `Validity::from_secs / from_duration`, `Time::tomorrow / next_week /
+// next_year / years_from_now / years_from_date / five_minutes_*` and
+// `Serial::short_random` produce builder inputs; the objects built from them
+// go through the same oracles as everything else (validated at the wall
+// clock, which these windows contain). The constructors themselves are
+// bracketed by their definition in terms of `Time::now()` and chrono.
+
+#[derive(Clone, Debug)]
+struct MadeCase { obj: u8, input: usize }
+
+fn between(lo: Time, x: Time, hi: Time) -> bool { lo <= x && x <= hi }
+
+fn space_made_inputs(ctx: &Ctx, d: &Dom) {
+    use chrono::{Datelike, TimeDelta};
+    let sp = ctx.space("build.library_made_inputs",
+        "validity windows from Validity::from_secs / from_duration (positive and negative), Time::{five_minutes_ago, tomorrow, next_week, next_year, years_from_now, now} and Time::years_from_date over 4 dates (one a leap day) x 4 year offsets; serials from Serial::short_random(len 0..=20) and Serial::random; the default signing time of SignedObjectBuilder::new -- each as input to a CA certificate, a CRL, a manifest, a bare signed object and a SignedMessage, judged by the usual oracles and validated at the wall clock (also through the wall-clock variants); the constructors are bracketed by Time::now() before/after and compared with chrono's own calendar arithmetic; non-trivial = distinct (object, input) pairs; outcome = object kind + whole-second / sub-second input");
+    let dates = [Time::utc(1950, 1, 1, 0, 0, 0), Time::utc(2023, 12, 31, 23, 59, 59), Time::utc(2024, 2, 29, 12, 34, 56), Time::utc(2049, 12, 31, 23, 59, 59)];
+    let offs = [-5i32, 0, 1, 4];
+    // input index -> (name, maker)
+    let n_now = 9usize;
+    let n_yfd = dates.len();
+    let n_ser = 22usize;
+    let input_name = |i: usize| -> String {
+        if i < n_now { ["now-based Validity::from_secs(86400)", "now-based Validity::from_duration(365 d)", "now-based Validity::from_secs(-86400)", "now-based five_minutes_ago..tomorrow",
+            "now-based five_minutes_ago..next_week", "now-based five_minutes_ago..next_year", "now-based five_minutes_ago..years_from_now(10)", "now-based now..five_minutes_from_now",
+            "now-based SignedObjectBuilder default signing time"][i].to_string() }
+        else if i < n_now + n_yfd { format!("years_from_date(-5 .. +4, {})", dates[i - n_now].to_rfc3339()) }
+        else if i < n_now + n_yfd + 21 { format!("serial=short_random(len={})", i - n_now - n_yfd) }
+        else { "serial=random".to_string() }
+    };
+    let mut cases = vec![];
+    for obj in 0..5u8 { for i in 0..(n_now + n_yfd + n_ser) {
+        let serial_input = i >= n_now + n_yfd;
+        if serial_input && obj > 1 { continue }                 // serials: certificate and CRL number
+        if i == 8 && !(obj == 2 || obj == 3) { continue }       // default signing time: signed objects only
+        cases.push(MadeCase { obj, input: i });
+    }}
+    let obj_names = ["cert.ca", "crl", "manifest", "sigobj", "sigmsg"];
+    let base_uri = d.dirs[1].clone();
+    let probes: Vec<Serial> = d.serials.iter().map(|s| s.1).collect();
+    run_cases(ctx, &sp, "made", &cases,
+        |c| format!("{} input={}", obj_names[c.obj as usize], input_name(c.input)),
+        |c| {
+            let mut r = CaseResult::default();
+            r.der_hash = fnv(format!("{}/{}", c.obj, c.input).as_bytes());
+            let res = guard(|| -> Result<(), String> {
+                let signer = CaseSigner::with_rand(&d.signer, 7, d.serials[5].1);
+                // ---- the input, bracketed by its definition
+                let t0 = Time::now();
+                let mut validity = d.validity((1, 3));
+                let mut serial = d.serials[3].1;
+                let day = TimeDelta::try_days(1).unwrap(); let min5 = TimeDelta::try_minutes(5).unwrap();
+                let mut bracket: Vec<(&str, Time, TimeDelta)> = vec![];   // (what, value, offset from now)
+                match c.input {
+                    0 => { validity = Validity::from_secs(86400); bracket.push(("from_secs.not_before", validity.not_before(), TimeDelta::zero())); bracket.push(("from_secs.not_after", validity.not_after(), day)) }
+                    1 => { validity = Validity::from_duration(TimeDelta::try_days(365).unwrap()); bracket.push(("from_duration.not_before", validity.not_before(), TimeDelta::zero())); bracket.push(("from_duration.not_after", validity.not_after(), TimeDelta::try_days(365).unwrap())) }
+                    2 => { validity = Validity::from_secs(-86400); bracket.push(("from_secs(-).not_before", validity.not_before(), -day)); bracket.push(("from_secs(-).not_after", validity.not_after(), TimeDelta::zero())) }
+                    3 => { validity = Validity::new(Time::five_minutes_ago(), Time::tomorrow()); bracket.push(("five_minutes_ago", validity.not_before(), -min5)); bracket.push(("tomorrow", validity.not_after(), day)) }
+                    4 => { validity = Validity::new(Time::five_minutes_ago(), Time::next_week()); bracket.push(("next_week", validity.not_after(), TimeDelta::try_weeks(1).unwrap())) }
+                    5 => { validity = Validity::new(Time::five_minutes_ago(), Time::next_year()) }
+                    6 => { validity = Validity::new(Time::five_minutes_ago(), Time::years_from_now(10)) }
+                    7 => { validity = Validity::new(Time::now(), Time::five_minutes_from_now()); bracket.push(("five_minutes_from_now", validity.not_after(), min5)) }
+                    8 => {}
+                    i if i < n_now + n_yfd => {
+                        let date = dates[i - n_now];
+                        for &y in &offs {
+                            let got = Time::years_from_date(y, *date);
+                            // chrono's own arithmetic; a leap day is first moved to Feb 28 as the documentation says
+                            let from = if date.month() == 2 && date.day() == 29 { *date - day } else { *date };
+                            let want = from.with_year(from.year() + y).ok_or("chrono cannot shift the year")?;
+                            if *got != want { r.fail("siblings", format!("years_from_date({y}, {}) = {} but chrono says {}", date.to_rfc3339(), got.to_rfc3339(), want.to_rfc3339())) }
+                        }
+                        validity = Validity::new(Time::years_from_date(-5, *dates[i - n_now]), Time::years_from_date(4, *dates[i - n_now]));
+                    }
+                    i if i < n_now + n_yfd + 21 => {
+                        let len = i - n_now - n_yfd;
+                        serial = Serial::short_random(&signer, len).map_err(|e| e.to_string())?;
+                        let arr = serial.into_array();
+                        if arr[..len].iter().any(|b| *b != 0) && len > 0 && !(len == 0) { r.fail("siblings", format!("short_random(len={len}) has non-zero octets in its first {len}: {}", hex(&arr))) }
+                        if len == 0 && serial != Serial::random(&signer).map_err(|e| e.to_string())? { r.fail("siblings", "short_random(signer, 0) differs from random(signer) on the same octets") }
+                    }
+                    _ => { serial = Serial::random(&signer).map_err(|e| e.to_string())? }
+                }
+                let t1 = Time::now();
+                for (what, x, off) in &bracket { if !between(t0 + *off, *x, t1 + *off) { r.fail("siblings", format!("{what} = {} is not now{:+}s", x.to_rfc3339(), off.num_seconds())) } }
+                if c.input == 5 && !between(Time::years_from_date(1, *t0), validity.not_after(), Time::years_from_date(1, *t1)) { r.fail("siblings", "next_year() is not years_from_date(1, now)") }
+                if c.input == 6 && !between(Time::years_from_date(10, *t0), validity.not_after(), Time::years_from_date(10, *t1)) { r.fail("siblings", "years_from_now(10) is not years_from_date(10, now)") }
+                let whole = validity.not_before().timestamp_subsec_nanos() == 0 && validity.not_after().timestamp_subsec_nanos() == 0 && c.input != 8;
+                r.label = format!("{} {}", obj_names[c.obj as usize], if whole { "whole-second input" } else { "sub-second input" });
+                // evaluation time: the wall clock for now-based windows, the window start otherwise
+                let contains_now = validity.not_before() <= t1 && t1 <= validity.not_after();
+                let when = if contains_now { Time::now() } else { validity.not_before() };
+                // ---- the objects
+                match c.obj {
+                    0 => {
+                        let mut t = CertSpec::base(CKind::Ca).build(d);
+                        t.set_validity(validity); t.set_serial_number(serial);
+                        let built = t.into_cert(&d.signer, &Kid(0)).map_err(|e| e.to_string())?;
+                        let Some((_, decoded)) = twin(&mut r, &built, |c| c.to_captured().as_slice().to_vec(), |b| Cert::decode(b).map_err(|e| e.to_string()), obs_cert) else { return Ok(()) };
+                        if let Err(e) = validate_cert(d, CKind::Ca, &decoded, when) { r.fail("validate", e) }
+                        if let Some(x) = wallclock_cert(d, CKind::Ca, &decoded) { r.fail("wallclock", x) }
+                        if contains_now { if let Err(e) = decoded.clone().validate_ca(&d.ta, true) { r.fail("validate", format!("validate_ca: {e}")) } }
+                    }
+                    1 => {
+                        let built = TbsCertList::new(RpkiSignatureAlgorithm::default(), d.issuer_name(1, 0), validity.not_before(), validity.not_after(),
+                            vec![CrlEntry::new(serial, validity.not_before())], d.signer.public(0).key_identifier(), serial).into_crl(&d.signer, &Kid(0)).map_err(|e| e.to_string())?;
+                        let Some((_, decoded)) = twin(&mut r, &built, |m| m.to_captured().as_slice().to_vec(), |b| Crl::decode(b).map_err(|e| e.to_string()), |x| obs_crl(x, &probes)) else { return Ok(()) };
+                        if let Err(e) = decoded.verify_signature(&d.signer.public(0)) { r.fail("validate", e.to_string()) }
+                    }
+                    2 | 3 => {
+                        let so = SoSpec::base();
+                        let mut b = SignedObjectBuilder::new(serial, validity, d.crls[1].clone(), d.cers[1].clone(), d.objs[1].clone());
+                        if c.input != 8 { b.set_signing_time(validity.not_before()) }
+                        let bytes = if c.obj == 2 {
+                            let built = ManifestContent::new(serial, validity.not_before(), validity.not_after(), DigestAlgorithm::sha256(),
+                                vec![FileAndHash::new(b"a.roa".to_vec(), sha256(b"a"))]).into_manifest(b, &so.signer(d), &Kid(0)).map_err(|e| e.to_string())?;
+                            let Some((bytes, decoded)) = twin(&mut r, &built, |m| m.to_captured().as_slice().to_vec(), |x| Manifest::decode(x, true).map_err(|e| e.to_string()), |m| obs_manifest(m, &base_uri)) else { return Ok(()) };
+                            if let Err(e) = decoded.clone().validate_at(&d.ta, true, when) { r.fail("validate", e.to_string()) }
+                            if contains_now { if let Err(e) = decoded.validate(&d.ta, true) { r.fail("validate", format!("Manifest::validate: {e}")) } }
+                            bytes
+                        } else {
+                            b.set_as_resources_inherit();
+                            let ct = Oid(Bytes::copy_from_slice(&der::oid(&[1, 2, 840, 113549, 1, 9, 16, 1, 35])[2..]));
+                            let built = b.finalize(ct, Bytes::from(der::seq(&[der::int_u(7)])), &so.signer(d), &Kid(0)).map_err(|e| e.to_string())?;
+                            let Some((bytes, _)) = twin(&mut r, &built, |s| cap(s.encode_ref()), |x| SignedObject::decode(x, true).map_err(|e| e.to_string()), obs_sigobj) else { return Ok(()) };
+                            bytes
+                        };
+                        let signed = SignedObject::decode(bytes.as_slice(), true).map_err(|e| e.to_string())?;
+                        if let Err(e) = signed.clone().validate_at(&d.ta, true, when) { r.fail("validate", e.to_string()) }
+                        if contains_now { if let Err(e) = signed.validate(&d.ta, true) { r.fail("validate", format!("SignedObject::validate: {e}")) } }
+                    }
+                    _ => {
+                        let built = SignedMessage::create(Bytes::from_static(b"<msg/>"), validity, &Kid(0), &signer).map_err(|e| e.to_string())?;
+                        let Some((_, decoded)) = twin(&mut r, &built, |m| m.to_captured().as_slice().to_vec(), |x| SignedMessage::decode(x, true).map_err(|e| e.to_string()), obs_sigmsg) else { return Ok(()) };
+                        if let Err(e) = decoded.validate_at(&d.signer.public(0), when) { r.fail("validate", e.to_string()) }
+                        if contains_now { if let Err(e) = decoded.validate(&d.signer.public(0)) { r.fail("validate", format!("SignedMessage::validate: {e}")) } }
+                    }
+                }
+                Ok(())
+            });
+            match res { Ok(Ok(())) => {}, Ok(Err(e)) => r.fail("build", e), Err(p) => r.fail("build", p) }
+            r
+        });
+    sp.done(true, &format!("{} (object, input) pairs", cases.len()));
+}
+
 fn main() {
     let ctx = Ctx::new("C05", "exploration");
     ctx.assume("aws-lc RSA/ECDSA and SHA-256 are correct; keys come from the fixed pool in /verif/keys");
@@ -1989,5 +2305,6 @@ fn main() {
     if want("cms") { space_cms(&ctx, &d) }
     if want("forms") { space_forms(&ctx, &d) }
     if want("setters") { space_setters(&ctx, &d) }
+    if want("made") { space_made_inputs(&ctx, &d) }
     ctx.finish();
 }
